@@ -66,6 +66,10 @@ type Ctx struct {
 	nanSyms   []string
 	topName   string
 	topFrame  *Frame
+	recips    map[string]T
+	defOf     map[string]string
+	stores    map[string]storeInfo
+	distinctGrp map[string]int
 }
 
 type writeRec struct {
@@ -117,6 +121,12 @@ func (c *Ctx) def(prefix string, t T) T {
 	}
 	n := c.fresh(prefix, t.K)
 	c.emit(fmt.Sprintf("(assert (= %s %s))", n.S, t.S))
+	if t.K.isArr() {
+		if c.defOf == nil {
+			c.defOf = map[string]string{}
+		}
+		c.defOf[n.S] = t.S
+	}
 	if c.isNaN(t) {
 		c.nanSyms = append(c.nanSyms, n.S)
 	}
@@ -861,7 +871,7 @@ func (fr *Frame) execInstr(instr ssa.Instruction, st *State) {
 		c.oblige(st, "bounds", "", nil, app(SBool, ">=", n, intLit(0)), in.Pos(), "make: length >= 0")
 		id := c.newID(st)
 		h := c.heap(st, "H."+string(es), heapSort(es))
-		c.setHeap(st, "H."+string(es), c.def("H", sto(h, id, zeroOf(arrSort(es)))), &id)
+		c.setHeap(st, "H."+string(es), c.def("H", c.sto(h, id, zeroOf(arrSort(es)))), &id)
 		fr.vals[in] = SliceV{id, intLit(0), n, es, in.Type().Underlying().(*types.Slice).Elem()}
 	case *ssa.Convert:
 		fr.vals[in] = fr.convert(in, st)
@@ -934,6 +944,17 @@ func (fr *Frame) execInstr(instr ssa.Instruction, st *State) {
 	}
 }
 
+// addInt builds a + b with zero folding (keeps index terms syntactically comparable).
+func addInt(a, b T) T {
+	if a.S == "0" {
+		return b
+	}
+	if b.S == "0" {
+		return a
+	}
+	return app(SInt, "+", a, b)
+}
+
 func boolT(b bool) T {
 	if b {
 		return tTrue
@@ -972,7 +993,7 @@ func (fr *Frame) alloc(in *ssa.Alloc, st *State) Val {
 		}
 		id := c.newID(st)
 		h := c.heap(st, "H."+string(es), heapSort(es))
-		c.setHeap(st, "H."+string(es), c.def("H", sto(h, id, zeroOf(arrSort(es)))), &id)
+		c.setHeap(st, "H."+string(es), c.def("H", c.sto(h, id, zeroOf(arrSort(es)))), &id)
 		return ArrPtr{id, es, u.Len()}
 	default:
 		c.nsym++
@@ -1002,7 +1023,7 @@ func (fr *Frame) storeLoc(st *State, base string, key T, t types.Type, v Val) {
 	put := func(suffix string, k Sort, x T) {
 		name := base + suffix
 		h := c.heap(st, name, arrSort(k))
-		c.setHeap(st, name, c.def("F", sto(h, key, x)), &key)
+		c.setHeap(st, name, c.def("F", c.sto(h, key, x)), &key)
 	}
 	switch x := v.(type) {
 	case T:
@@ -1025,7 +1046,7 @@ func (fr *Frame) storeLoc(st *State, base string, key T, t types.Type, v Val) {
 func (fr *Frame) loadLoc(st *State, base string, key T, t types.Type) Val {
 	c := fr.c
 	get := func(suffix string, k Sort) T {
-		return sel(c.heap(st, base+suffix, arrSort(k)), key)
+		return c.sel(c.heap(st, base+suffix, arrSort(k)), key)
 	}
 	switch u := t.Underlying().(type) {
 	case *types.Basic:
@@ -1054,7 +1075,7 @@ func (fr *Frame) load(st *State, addr Val, t types.Type, pos token.Pos) Val {
 	c := fr.c
 	switch a := addr.(type) {
 	case ElemPtr:
-		return sel(sel(c.heap(st, "H."+string(a.Elem), heapSort(a.Elem)), a.ID), a.Idx)
+		return c.sel(c.sel(c.heap(st, "H."+string(a.Elem), heapSort(a.Elem)), a.ID), a.Idx)
 	case FieldPtr:
 		return fr.loadLoc(st, "F."+a.Key+"."+a.Field, a.Ref, a.Typ)
 	case CellPtr:
@@ -1064,7 +1085,7 @@ func (fr *Frame) load(st *State, addr Val, t types.Type, pos token.Pos) Val {
 		}
 		return v
 	case ConstElemPtr:
-		return sel(a.Arr.Term, a.Idx)
+		return c.sel(a.Arr.Term, a.Idx)
 	case OpaqueV:
 		// global variable: treated as an unknown of its type
 		c.note("read of " + a.Desc + " modelled as an unconstrained value")
@@ -1083,7 +1104,7 @@ func (fr *Frame) store(st *State, addr Val, v Val, pos token.Pos) {
 		if !ok {
 			panic(vcErr("store of %T into slice element", v))
 		}
-		c.setHeap(st, name, c.def("H", sto(h, a.ID, sto(sel(h, a.ID), a.Idx, x))), &a.ID)
+		c.setHeap(st, name, c.def("H", c.sto(h, a.ID, c.sto(c.sel(h, a.ID), a.Idx, x))), &a.ID)
 	case FieldPtr:
 		fr.storeLoc(st, "F."+a.Key+"."+a.Field, a.Ref, a.Typ, v)
 	case CellPtr:
@@ -1105,7 +1126,7 @@ func (fr *Frame) indexAddr(in *ssa.IndexAddr, st *State) Val {
 		}
 		c.oblige(st, "bounds", "", nil, and(app(SBool, "<=", intLit(0), idx), app(SBool, "<", idx, b.Len)), in.Pos(),
 			"index in range")
-		return ElemPtr{b.ID, c.def("ix", app(SInt, "+", b.Off, idx)), b.Elem}
+		return ElemPtr{b.ID, c.def("ix", addInt(b.Off, idx)), b.Elem}
 	case ArrPtr:
 		c.oblige(st, "bounds", "", nil, and(app(SBool, "<=", intLit(0), idx), app(SBool, "<", idx, intLit(b.N))), in.Pos(),
 			"index in range")
@@ -1337,7 +1358,7 @@ func (c *Ctx) arith(st *State, op token.Token, x, y T, pos token.Pos, check bool
 			if check && st != nil {
 				c.oblige(st, "div0", "", nil, not(eq(y, T{"0.0", SReal})), pos, "real divisor is non-zero")
 			}
-			return app(SReal, "/", x, y)
+			return c.realDiv(x, y)
 		}
 		if check && st != nil {
 			c.oblige(st, "div0", "", nil, not(eq(y, intLit(0))), pos, "integer divisor is non-zero")
@@ -1378,6 +1399,54 @@ func (c *Ctx) arith(st *State, op token.Token, x, y T, pos token.Pos, check bool
 	panic(vcErr("arithmetic operator %s on %s unsupported", op, x.K))
 }
 
+// realDiv encodes x / y. A symbolic divisor gets a reciprocal constant r with
+// y*r = 1 (for y != 0), so that quotients become products and identities such
+// as (a*b)/c = (a/c)*b are polynomial identities for the solver.
+func (c *Ctx) realDiv(x, y T) T {
+	if c.inQuant > 0 || isNumeral(y.S) {
+		return app(SReal, "/", x, y)
+	}
+	if c.recips == nil {
+		c.recips = map[string]T{}
+	}
+	r, ok := c.recips[y.S]
+	if !ok {
+		r = app(SReal, "recip", y)
+		// instance axioms, tagged so that the "interpreted division" query
+		// variant can drop them
+		c.emit(fmt.Sprintf("(assert (! (=> (not (= %s 0.0)) (= (* %s %s) 1.0)) :named recipax%d))", y.S, y.S, r.S, len(c.recips)*3))
+		c.emit(fmt.Sprintf("(assert (! (=> (> %s 0.0) (> %s 0.0)) :named recipax%d))", y.S, r.S, len(c.recips)*3+1))
+		c.emit(fmt.Sprintf("(assert (! (=> (< %s 0.0) (< %s 0.0)) :named recipax%d))", y.S, r.S, len(c.recips)*3+2))
+		c.recips[y.S] = r
+	}
+	return app(SReal, "rdiv", x, y)
+}
+
+func isNumeral(s string) bool {
+	s = strings.TrimSpace(s)
+	for strings.HasPrefix(s, "(- ") && strings.HasSuffix(s, ")") {
+		s = strings.TrimSpace(s[3 : len(s)-1])
+	}
+	if strings.HasPrefix(s, "(/ ") && strings.HasSuffix(s, ")") {
+		f := strings.Fields(s[3 : len(s)-1])
+		return len(f) == 2 && isNumeral(f[0]) && isNumeral(f[1])
+	}
+	if s == "" {
+		return false
+	}
+	dot := false
+	for _, ch := range s {
+		if ch == '.' && !dot {
+			dot = true
+			continue
+		}
+		if ch < '0' || ch > '9' {
+			return false
+		}
+	}
+	return true
+}
+
 func (c *Ctx) needGoDiv() {
 	if c.declared["gdiv"] {
 		return
@@ -1385,6 +1454,9 @@ func (c *Ctx) needGoDiv() {
 	c.declared["gdiv"] = true
 	// prepended by the query writer
 }
+
+const recipUF = "(declare-fun recip (Real) Real)\n(define-fun rdiv ((x Real) (y Real)) Real (* x (recip y)))\n"
+const recipDef = "(declare-fun recip (Real) Real)\n(define-fun rdiv ((x Real) (y Real)) Real (/ x y))\n"
 
 const goDivPrelude = `(define-fun gdiv ((a Int) (b Int)) Int (ite (>= a 0) (div a b) (- (div (- a) b))))
 (define-fun gmod ((a Int) (b Int)) Int (- a (* b (gdiv a b))))
